@@ -325,13 +325,13 @@ def check_refuse(ctx):
         ctx.check(R, s, "comparison is existing header vs this table", oka, "compares %s" % [a[:50] for a in args], key="dtype-args")
     ctx.check(R, first, "dtype mismatch is refused before the dataset is touched", okd, why, key="dtype-dom")
     # (c) missing metadata
-    mm = [s for s in A.walk_local(fn) if isinstance(s, ast.If) and "meta_path(%s) not in %s" % (NM, OG) in A.unparse(s.test)]
+    mm = [s for s in A.walk_local(fn) if isinstance(s, ast.If) and "meta_path(%s) not in %s" % (NM, OG) in A.unparse(A.inline_temporaries(s.test, s, fn))]
     okm = bool(mm) and A.always_raises(mm[0].body)
     ctx.check(R, fn, "appending to a table without stored metadata raises", okm, "no raise when the existing table has no metadata header", key="nometa")
     # existing header read from the file being appended to
     # the header compared against (first argument role of the dtype comparison / metadata merge) is read from the target dataset's own metadata
     eh = [s for s in A.walk_local(fn) if isinstance(s, ast.Assign) and isinstance(s.targets[0], ast.Name) and not (isinstance(s.value, ast.Constant))
-          and "%s[meta_path(%s)]" % (OG, NM) in A.unparse(s.value) and "get_header_from_yaml" in A.unparse(s.value)]
+          and "%s[meta_path(%s)]" % (OG, NM) in A.unparse(A.inline_temporaries(s.value, s, fn)) and "get_header_from_yaml" in A.unparse(s.value)]
     ehn = eh[0].targets[0].id if len(eh) == 1 else None
     ok_eh = ehn is not None and any(A.call_name(c_) == "_custom_tbl_dtype_compare" and any(ehn + "['datatype']" == A.unparse(a_) or ehn + '["datatype"]' == A.unparse(a_) for a_ in c_.args) for c_ in A.calls_in(fn))
     ctx.check(R, fn, "existing header is read from the target dataset's metadata", ok_eh, "existing_header = %s" % (A.unparse(eh[0].value)[:60] if eh else None), key="existing")
